@@ -136,18 +136,27 @@ func (bw *BatchedWriter) Enqueue(object BatchWriteObject) {
 		}
 	})
 
+	// announce the object before looking at the running flag: the writer only terminates after it saw
+	// running == false and then scheduledCount == 0, so either it waits for this object or this call sees the stop.
+	// (with the counter raised after the check, a StopBatchWriter completing in between left the object in the
+	// queue forever, or this call blocked forever on a full queue.)
+	bw.scheduledCount.Add(1)
+
 	// abort if the BatchWriter has been stopped
 	if !bw.running.Load() {
+		bw.scheduledCount.Add(-1)
+
 		return
 	}
 
 	// abort if the very same object has been queued already
 	if object.BatchWriteScheduled() {
+		bw.scheduledCount.Add(-1)
+
 		return
 	}
 
 	// queue object
-	bw.scheduledCount.Add(1)
 	bw.batchQueue <- object
 }
 
